@@ -29,7 +29,7 @@ ASSUMPTIONS = [
 ]
 
 TIERS = {
-    'quick': {'runs': 3200, 'chunk': 50, 'timeout_s': 900, 'max_perms': 720,
+    'quick': {'runs': 6400, 'chunk': 50, 'timeout_s': 900, 'max_perms': 720,
               'stdlib_share': 0.25},
     'thorough': {'runs': 120000, 'chunk': 500, 'timeout_s': 6 * 3600,
                  'max_perms': 720, 'stdlib_share': 0.2,
@@ -206,6 +206,15 @@ def gen_family(rng):
             ovs.append([rng.choice([['py', 'A', 0], ['py', 'B', 0],
                                     ['py', 'C', 0], ['obj']])
                         for _ in range(nparams)])
+    elif shape < 0.47 and nparams >= 2:
+        # lattice-typed first parameters, numeric-typed last parameter:
+        # Number is declared with a TUPLE of classes, the others with a class
+        lat = [['py', 'A', 0], ['py', 'B', 0], ['py', 'D', 0], ['py', 'E', 0],
+               ['py', 'A', 1], ['obj']]
+        numeric = [['num'], ['num'], ['obj'], ['int'], ['pyint']]
+        for _ in range(rng.choice([3, 3, 4])):
+            ovs.append([rng.choice(lat) for _ in range(nparams - 1)] +
+                       [rng.choice(numeric)])
     elif shape < 0.55:
         # no greatest element: a chain plus candidates incomparable with it
         pool = [['py', 'A', 0], ['py', 'B', 0], ['py', 'C', 0],
@@ -260,6 +269,8 @@ def gen_calls(rng, family, nparams):
             args = [rng.choice([['D'], ['D'], ['F'], ['F'], ['B'], ['C'],
                                 ['none']])
                     for _ in range(n)]
+            if n >= 2 and rng.random() < 0.4:
+                args[-1] = rng.choice([['int', 1], ['float'], ['int', 0]])
         else:
             args = [rng.choice(VALUE_POOL) for _ in range(n)]
         nkw = 0
